@@ -113,7 +113,7 @@ class CompilationUnit(EvaluationContext):
                         f'{param_type.name.upper()}, got '
                         f'{arg.type.name.upper()}',
                         node=arg)
-            elif not arg.type.is_builtin:
+            elif not (arg.type.is_builtin or arg.type.is_user_defined):
                 # an ill-typed argument expression (Type.UNKNOWN has
                 # no name to show)
                 raise CompileError(EC.TYPE_MISMATCH, node=arg)
